@@ -47,9 +47,15 @@ def run_prop(prop, tier):
         total += 2 * n
         _replay_into(ck, prop, cf, os.path.join(wd, "large"), probe=False)
         _replay_into(ck, prop, cf, os.path.join(wd, "large_mlockall"), probe=False, mode="mlockall")
-        wl = os.path.join(wd, "GenProtectedWipe.ndjson")
+        wl = os.path.join(wd, (gent if thorough else genq)[0] + ".ndjson")
         if os.path.exists(wl):
             _replay_into(ck, prop, wl, os.path.join(wd, "wipe_mlockall"), probe=False, mode="mlockall")
+            # ... with every drop happening while the thread unwinds from a (caught) panic, and in the optimised build profile
+            # (debug assertions off): memory is given back wiped however the drop comes about and however the crate was built
+            _replay_into(ck, prop, wl, os.path.join(wd, "wipe_unwind"), probe=False, mode="unwind")
+            _replay_into(ck, prop, wl, os.path.join(wd, "wipe_release"), probe=False, config="nightly-release")
+            _replay_into(ck, prop, cf, os.path.join(wd, "large_release"), probe=False, config="nightly-release")
+            total += 2 * n
     # random long behaviours (spec-generated)
     cf = os.path.join(wd, "sim.ndjson")
     g, n = gen_cases(simcfg, cf, simulate="num=%d" % (4000 if thorough else 600), name=prop + "sim")
@@ -165,8 +171,8 @@ def _trace_validation(ck, prop, wd, runs):
     ck.cov["evaluations"] += len(evs)
 
 
-def _replay_into(ck, prop, cases, outprefix, probe, mode=None):
-    rep = replay(cases, outprefix, nproc=min(14, NCPU), probe=probe, mode=mode)
+def _replay_into(ck, prop, cases, outprefix, probe, mode=None, config="nightly"):
+    rep = replay(cases, outprefix, nproc=min(14, NCPU), probe=probe, mode=mode, config=config)
     by = split_failures(rep)
     mine = list(by[prop])
     if prop == "C19":
